@@ -473,6 +473,35 @@ theorem typed_value_eq_spec (valid : SType → String → Bool) (T : SType) (b :
   have hpy := pyDecode_of_xsdLex b s h1 a ha
   simp [atomicSequence, memberProtos_atomic hT, isList_atomic hT, atomicLoop, decodeAll, firstMember, tryMember, hpy]
 
+/-- builtins whose constructor applies its white-space facet itself (no `strip`) -/
+def strFamily : B → Bool
+  | .anyType | .anySimpleType | .anyAtomicType | .untypedAtomic
+  | .string | .normalizedString | .token | .anyURI => true
+  | _ => false
+
+theorem pyDecode_eq_xsdLex_strFamily (b : B) (hb : strFamily b = true) (s : String) :
+    pyDecode b s = xsdLex b (normalize b s) := by
+  cases b <;> first | (simp [strFamily] at hb; done) | rfl
+
+/-- **typed value = specification value, string family, EVERY text** (multi-word literals included):
+for an atomic type whose primitive base is xs:string / normalizedString / token / anyURI or one of the
+ur-types, `get_atomic_sequence` yields the value of the XSD lexical mapping for every text, with no
+one-token hypothesis. -/
+theorem typed_value_eq_spec_strFamily (valid : SType → String → Bool) (T : SType) (b : B)
+    (hT : atomicBase? T = some b) (hb : strFamily b = true) (s : String)
+    (vs : List Atom) (h : decode T s = some vs) : atomicSequence valid T s = .ok vs := by
+  obtain ⟨a, rfl, ha⟩ := decode_atomic hT h
+  have hpy : pyDecode b s = some a := by rw [pyDecode_eq_xsdLex_strFamily b hb s]; exact ha
+  simp [atomicSequence, memberProtos_atomic hT, isList_atomic hT, atomicLoop, decodeAll, firstMember, tryMember, hpy]
+
+/-- the hypotheses are met by a multi-word literal, and the value keeps the inner white space as the
+facet of each type says -/
+example : (splitWs " a \t b ").length = 2
+    ∧ atomicSequence (fun _ _ => true) (.builtin .token) " a \t b " = .ok [⟨.token, "a b"⟩]
+    ∧ atomicSequence (fun _ _ => true) (.builtin .normalizedString) " a \t b " = .ok [⟨.normalizedString, " a   b "⟩]
+    ∧ atomicSequence (fun _ _ => true) (.builtin .string) " a \t b " = .ok [⟨.string, " a \t b "⟩] := by
+  decide
+
 /-- every member is an atomic type (a builtin or a chain of restrictions, WITH facets) -/
 def atomicMembers : List SType → Option (List (SType × B))
   | [] => some []
